@@ -2,6 +2,7 @@ package main
 
 import (
 	"go/types"
+	"go/token"
 	"sort"
 	"fmt"
 	"strings"
@@ -293,4 +294,62 @@ func init() {
 			runResetRule(c, "X.readreset", ci, s)
 		}
 	}})
+}
+
+func init() {
+	register(&Property{ID: "X-destreads", NeedSSA: true, Decided: "dump", NotDecided: "-", Run: func(c *Ctx) {
+		p := c.P
+		for _, fn := range p.ModuleSSAFuncs() {
+			if fn.Origin() != nil || fn.Blocks == nil || len(fn.Params) == 0 {
+				continue
+			}
+			root := fn
+			for root.Parent() != nil {
+				root = root.Parent()
+			}
+			if !strings.HasPrefix(root.Name(), "reconstructFuncOf") && !strings.HasPrefix(root.Name(), "reconstruct") {
+				continue
+			}
+			for _, par := range fn.Params {
+				if !isReflectValue(par.Type()) {
+					continue
+				}
+				m := map[string]bool{}
+				for _, a := range destAliases(par) {
+					for _, r := range *a.Referrers() {
+						if call, ok := r.(ssa.CallInstruction); ok {
+							if callee := call.Common().StaticCallee(); callee != nil && len(call.Common().Args) > 0 && call.Common().Args[0] == a && callee.Signature.Recv() != nil {
+								m[fnName(callee)] = true
+							}
+						}
+					}
+				}
+				var ks []string
+				for k := range m {
+					ks = append(ks, k)
+				}
+				sort.Strings(ks)
+				c.Note("%s(%s): %s", FuncKey(fn), par.Name(), strings.Join(ks, ","))
+				fmt.Println(FuncKey(fn), par.Name(), strings.Join(ks, ","))
+			}
+		}
+	}})
+}
+
+func destAliases(par *ssa.Parameter) []ssa.Value {
+	out := []ssa.Value{par}
+	if refs := par.Referrers(); refs != nil {
+		for _, r := range *refs {
+			if st, ok := r.(*ssa.Store); ok && st.Val == par {
+				if al, ok := st.Addr.(*ssa.Alloc); ok {
+					for _, lr := range *al.Referrers() {
+						if u, ok := lr.(*ssa.UnOp); ok && u.Op == token.MUL {
+							out = append(out, u)
+						}
+					}
+				}
+			}
+		}
+	}
+	return out
 }
